@@ -60,10 +60,12 @@ func c21HistString(allow int, h []c21Op) string {
 // c21PeerKeys are the two fixed remote peers (immutable inputs, computed once; every
 // Validate call gets a fresh copy of the key).
 var c21PeerKeys = func() (out [2]*operator.PublicKey) {
-	for i := range out {
-		x, y := local_v1.DefaultCurve.ScalarBaseMult(big.NewInt(int64(7 + i)).Bytes())
-		out[i] = &operator.PublicKey{Curve: operator.Secp256k1, X: x, Y: y}
-	}
+	// Q is the negation of P: a different operator key with the same X coordinate, so that
+	// any bookkeeping keyed by less than the whole key makes the two peers collide
+	x, y := local_v1.DefaultCurve.ScalarBaseMult(big.NewInt(7).Bytes())
+	out[0] = &operator.PublicKey{Curve: operator.Secp256k1, X: x, Y: y}
+	ny := new(big.Int).Sub(local_v1.DefaultCurve.Params().P, y)
+	out[1] = &operator.PublicKey{Curve: operator.Secp256k1, X: new(big.Int).Set(x), Y: ny}
 	return out
 }()
 
